@@ -822,8 +822,14 @@ impl<'a> Lexer<'a> {
                                 self.push_code_unit(&mut value, hex);
                             }
                         }
-                        Some((_, '\n')) => {
+                        Some((_, '\n' | '\u{2028}' | '\u{2029}')) => {
                             // Line continuation
+                        }
+                        Some((_, '\r')) => {
+                            // Line continuation: CR or CR LF
+                            if self.peek() == Some('\n') {
+                                self.advance();
+                            }
                         }
                         Some((_, c)) => value.push(c),
                         None => break,
